@@ -36,3 +36,18 @@ func (c *PointerCodec) Write(w *WriteBuf, p unsafe.Pointer) {
 	}
 	c.Codec.Write(w, pp)
 }
+
+// collectionPointerCodec is the codec for pointers to slices and maps. Their
+// schema is a plain array or map rather than a union with null, so a nil
+// pointer has to be written as an empty collection.
+type collectionPointerCodec struct {
+	PointerCodec
+}
+
+func (c *collectionPointerCodec) Write(w *WriteBuf, p unsafe.Pointer) {
+	if *(*unsafe.Pointer)(p) == nil {
+		w.Varint(0)
+		return
+	}
+	c.PointerCodec.Write(w, p)
+}
